@@ -739,54 +739,68 @@ func runC21(c *Ctx) {
 	builders := []string{"pkg/sidecar/param.fuseParamsGlobalString", "pkg/sidecar/param.fuseParamsBundleString", "pkg/sidecar/param.pgParamsGlobalString", "pkg/sidecar/param.pgParamsDatabaseString"}
 	// (a) values checked
 	{
-		b := p.BodyOf(ap)
 		info := ap.Info()
-		// the success return that concatenates the value is dominated by the false edge of containsSep(paramVal)
-		const unk, clean, dirty = 1, 2, 4
-		bad := false
-		sawCheck := false
-		nConcat := 0
-		b.run(flowSpec{entry: unk,
-			node: func(n ast.Node, s uint64) uint64 {
-				if r, ok := n.(*ast.ReturnStmt); ok && len(r.Results) == 2 {
-					d := describeExpr(ap, r.Results[0], 0)
-					if strings.Contains(d, "param#2") { // the value is emitted
-						nConcat++
-						if s&(unk|dirty) != 0 {
-							bad = true
-						}
-						if d != "((((param#0+param#1)+global:kvSep)+param#2)+global:itemSep)" {
-							bad = true
-						}
+		// the return that emits the value is guarded by "the value contains neither separator": the guard atoms of that
+		// return (NNF engine: nesting, early returns, De Morgan all give the same atoms) include the negation of
+		// strings.Contains(value, itemSep) and of strings.Contains(value, kvSep), directly or through a predicate helper
+		// whose single return is such a disjunction
+		var absent func(f *FuncInfo, e ast.Expr, val string, depth int) map[string]bool
+		absent = func(f *FuncInfo, e ast.Expr, val string, depth int) map[string]bool {
+			out := map[string]bool{}
+			switch x := ast.Unparen(e).(type) {
+			case *ast.BinaryExpr:
+				if x.Op == token.LOR {
+					for k := range absent(f, x.X, val, depth) {
+						out[k] = true
+					}
+					for k := range absent(f, x.Y, val, depth) {
+						out[k] = true
 					}
 				}
-				return s
-			},
-			edge: func(blk *cfg.Block, i int, s uint64) uint64 {
-				if cond := condOf(blk); cond != nil {
-					if call, ok := ast.Unparen(cond).(*ast.CallExpr); ok && calleeID(info, call) == "pkg/sidecar/param.containsSep" && describeExpr(ap, call.Args[0], 0) == "param#2" {
-						sawCheck = true
-						if i == 0 {
-							return dirty
-						}
-						return clean
+			case *ast.CallExpr:
+				id := calleeID(f.Info(), x)
+				if id == "strings.Contains" && len(x.Args) == 2 && describeExpr(f, x.Args[0], 0) == val {
+					switch describeExpr(f, x.Args[1], 0) {
+					case "global:itemSep":
+						out["itemSep"] = true
+					case "global:kvSep":
+						out["kvSep"] = true
 					}
-				}
-				return s
-			}})
-		c.check(sawCheck && nConcat == 1 && !bad, "values-checked.append", ap.ID, p.Pos(ap.Decl.Pos()), "a value is emitted as name+kvSep+value+itemSep only where containsSep(value) was false", "appendToParamString can emit a value without having checked it for separators (or no longer emits name+kvSep+value+itemSep): the encoded string can be ambiguous without an error")
-		cs := p.Func("pkg/sidecar/param.containsSep")
-		okCS := false
-		ast.Inspect(cs.Decl.Body, func(nd ast.Node) bool {
-			if r, ok := nd.(*ast.ReturnStmt); ok && len(r.Results) == 1 {
-				d := describeExpr(cs, r.Results[0], 0)
-				if d == "(call:strings.Contains(param#0,global:itemSep)||call:strings.Contains(param#0,global:kvSep))" || d == "(call:strings.Contains(param#0,global:kvSep)||call:strings.Contains(param#0,global:itemSep))" {
-					okCS = true
+				} else if h := p.FuncOpt(id); h != nil && h.Decl.Body != nil && depth < 1 && len(h.Decl.Body.List) == 1 && len(x.Args) == 1 && describeExpr(f, x.Args[0], 0) == val {
+					if r, ok := h.Decl.Body.List[0].(*ast.ReturnStmt); ok && len(r.Results) == 1 {
+						return absent(h, r.Results[0], "param#0", depth+1)
+					}
 				}
 			}
-			return true
-		})
-		c.check(okCS, "values-checked.append", cs.ID, p.Pos(cs.Decl.Pos()), "containsSep tests both separators", "containsSep no longer tests both separators")
+			return out
+		}
+		nConcat, okGuard, okShape := 0, false, true
+		for _, ga := range guardedActions(ap, ap.Decl.Body) {
+			r, ok := ga.Node.(*ast.ReturnStmt)
+			if !ok || len(r.Results) != 2 {
+				continue
+			}
+			d := describeExpr(ap, r.Results[0], 0)
+			if !strings.Contains(d, "param#2") {
+				continue
+			}
+			nConcat++
+			if d != "((((param#0+param#1)+global:kvSep)+param#2)+global:itemSep)" {
+				okShape = false
+			}
+			got := map[string]bool{}
+			for _, at := range ga.Atoms {
+				if !at.Neg {
+					continue
+				}
+				for k := range absent(ap, at.Expr, "param#2", 0) {
+					got[k] = true
+				}
+			}
+			okGuard = got["itemSep"] && got["kvSep"]
+		}
+		_ = info
+		c.check(nConcat == 1 && okGuard && okShape, "values-checked.append", ap.ID, p.Pos(ap.Decl.Pos()), "a value is emitted as name+kvSep+value+itemSep only where it contains neither separator", "appendToParamString can emit a value without having checked it for both separators (or no longer emits name+kvSep+value+itemSep): the encoded string can be ambiguous without an error")
 		// every value in the builders goes through appendToParamString; literal names collected
 		for _, bid := range builders {
 			f := p.Func(bid)
